@@ -277,6 +277,7 @@ def cluster_laws(nsites, kind, cis):
 
         def ob(n, val):
             obs.append(('%s:%s' % (name, n), val, src.info(sig='Cluster:' + n, replayer='cluster', extra=extra)))
+        ENG.allow_hash = True    # Cluster's equality map: concrete (chem,index) keys -> sets of all-symbolic tuples
         cl = cluster.Cluster(sites, transition=transition, vacancy=vacancy)
         for pi, perm in enumerate(itertools.permutations(range(nspecial, nsites))):
             order = list(range(nspecial)) + list(perm)
